@@ -114,10 +114,11 @@ private def evName : Ev → Option (String × Nat)
   | .exitEmpty t => some ("exit", t)
   | _ => none
 
--- client runs its first three ops (7 steps), loop thread 1 drains (A, skip D, C, wait, B, exit), client ticks
+-- client runs its first three ops (7 steps), loop thread 1 drains (A, skip D, C, timed wait, 10 µs pass, B, exit), client ticks
 -- and schedules E: a second loop thread (2) is created and runs it.
 private def sch0 : List (Nat × Nat) :=
-  List.replicate 7 (0, 0) ++ List.replicate 30 (1, 0) ++ List.replicate 6 (0, 0) ++ List.replicate 10 (2, 0)
+  List.replicate 7 (0, 0) ++ List.replicate 16 (1, 0) ++ [(1, 10)] ++ List.replicate 8 (1, 0) ++ List.replicate 6 (0, 0) ++
+    List.replicate 8 (2, 0)
 
 set_option maxRecDepth 100000 in
 example : ((Sys.init [prog0]).run true sch0).sh.log.reverse.filterMap evName =
